@@ -201,6 +201,117 @@ theorem sublist_flatMap {α β : Type} (f : α → List β) {l₁ l₂ : List α
   | cons a _ ih => simp only [List.flatMap_cons]; exact ih.trans (List.sublist_append_right _ _)
   | cons_cons a _ ih => simp only [List.flatMap_cons]; exact List.Sublist.append (List.Sublist.refl _) ih
 
+/-! ### per-height limit lookup -/
+
+theorem pickFork_spec (h : Int) : ∀ (forks : List (Int × Int)) (best : Option (Int × Int)),
+    (∀ b, best = some b → b.1 ≤ h) →
+    (∀ b, pickFork h best forks = some b → b.1 ≤ h ∧ (best = some b ∨ b ∈ forks)) ∧
+    (∀ g ∈ forks, g.1 ≤ h → ∃ b, pickFork h best forks = some b ∧ g.1 ≤ b.1) ∧
+    (∀ b0, best = some b0 → ∃ b, pickFork h best forks = some b ∧ b0.1 ≤ b.1) ∧
+    (pickFork h best forks = none → best = none ∧ ∀ g ∈ forks, ¬ g.1 ≤ h) := by
+  intro forks
+  induction forks with
+  | nil =>
+    intro best hb
+    simp only [pickFork]
+    refine ⟨fun b e => ⟨hb b e, Or.inl e⟩, by simp, fun b0 e => ⟨b0, e, Int.le_refl _⟩, fun e => ⟨e, by simp⟩⟩
+  | cons f rest ih =>
+    intro best hb
+    unfold pickFork
+    by_cases hf : f.1 ≤ h
+    · simp only [hf, if_true]
+      cases best with
+      | none =>
+        simp only
+        obtain ⟨i1, i2, i3, i4⟩ := ih (some f) (by intro b e; injection e with e; subst e; exact hf)
+        refine ⟨?_, ?_, by simp, ?_⟩
+        · intro b e
+          obtain ⟨h1, h2⟩ := i1 b e
+          refine ⟨h1, Or.inr ?_⟩
+          rcases h2 with h2 | h2
+          · injection h2 with h2; subst h2; simp
+          · simp [h2]
+        · intro g hg hgh
+          rcases List.mem_cons.mp hg with rfl | hg
+          · exact i3 g rfl
+          · exact i2 g hg hgh
+        · intro e
+          obtain ⟨c, _⟩ := i4 e
+          cases c
+      | some b0 =>
+        simp only
+        have hb0 := hb b0 rfl
+        by_cases hlt : b0.1 < f.1
+        · simp only [hlt, if_true]
+          obtain ⟨i1, i2, i3, i4⟩ := ih (some f) (by intro b e; injection e with e; subst e; exact hf)
+          refine ⟨?_, ?_, ?_, ?_⟩
+          · intro b e
+            obtain ⟨h1, h2⟩ := i1 b e
+            refine ⟨h1, Or.inr ?_⟩
+            rcases h2 with h2 | h2
+            · injection h2 with h2; subst h2; simp
+            · simp [h2]
+          · intro g hg hgh
+            rcases List.mem_cons.mp hg with rfl | hg
+            · exact i3 g rfl
+            · exact i2 g hg hgh
+          · intro b1 e
+            injection e with e; subst e
+            obtain ⟨b, hb1, hb2⟩ := i3 f rfl
+            exact ⟨b, hb1, by omega⟩
+          · intro e
+            obtain ⟨c, _⟩ := i4 e
+            cases c
+        · simp only [hlt, if_false]
+          obtain ⟨i1, i2, i3, i4⟩ := ih (some b0) hb
+          refine ⟨?_, ?_, i3, ?_⟩
+          · intro b e
+            obtain ⟨h1, h2⟩ := i1 b e
+            refine ⟨h1, ?_⟩
+            rcases h2 with h2 | h2
+            · exact Or.inl h2
+            · exact Or.inr (by simp [h2])
+          · intro g hg hgh
+            rcases List.mem_cons.mp hg with rfl | hg
+            · obtain ⟨b, hb1, hb2⟩ := i3 b0 rfl
+              exact ⟨b, hb1, by omega⟩
+            · exact i2 g hg hgh
+          · intro e
+            obtain ⟨c, _⟩ := i4 e
+            cases c
+    · simp only [hf, if_false]
+      obtain ⟨i1, i2, i3, i4⟩ := ih best hb
+      refine ⟨?_, ?_, i3, ?_⟩
+      · intro b e
+        obtain ⟨h1, h2⟩ := i1 b e
+        refine ⟨h1, ?_⟩
+        rcases h2 with h2 | h2
+        · exact Or.inl h2
+        · exact Or.inr (by simp [h2])
+      · intro g hg hgh
+        rcases List.mem_cons.mp hg with rfl | hg
+        · exact absurd hgh hf
+        · exact i2 g hg hgh
+      · intro e
+        obtain ⟨h1, h2⟩ := i4 e
+        refine ⟨h1, ?_⟩
+        intro g hg
+        rcases List.mem_cons.mp hg with rfl | hg
+        · exact hf
+        · exact h2 g hg
+
+theorem fst_unique {forks : List (Int × Int)} (hn : (forks.map (·.1)).Nodup) {a b : Int × Int}
+    (ha : a ∈ forks) (hb : b ∈ forks) (e : a.1 = b.1) : a = b := by
+  induction forks with
+  | nil => cases ha
+  | cons f rest ih =>
+    rw [List.map_cons, List.nodup_cons] at hn
+    rcases List.mem_cons.mp ha with rfl | ha' <;> rcases List.mem_cons.mp hb with rfl | hb'
+    · rfl
+    · exact absurd (List.mem_map.mpr ⟨b, hb', e.symm⟩) hn.1
+    · exact absurd (List.mem_map.mpr ⟨a, ha', e⟩) hn.1
+    · exact ih hn.2 ha' hb'
+
 /-! ### CheckTxExpire on a well-formed expanded list -/
 
 /-- a segment of a well-formed expanded list: a single transaction (`GroupCount = 0`) or a whole
